@@ -61,10 +61,19 @@ package schedule
 //@                                        && !(h.fragmentCores[k].pieces >= shareBase && h.fragmentCores[k].pieces % shareBase == 0)
 
 //@ func reorderByAffinity
-//@   trusted
-//@   requires okHost(oldH) && okHost(newH) && hostIDs(newH)
+//@   requires okHost(oldH) && okHost(newH) && hostIDs(newH) && oldH != newH
 //@   modifies newH, newH.fullCores[_], newH.fragmentCores[_]
-//@   ensures[C06.reorder,C04,C05] okHost(newH) && hostIDs(newH) && newH.shareBase == old(newH.shareBase) && newH.maxFragmentCores == old(newH.maxFragmentCores)
+//@   ensures[C06.reorder,C04,C05,C33] okHost(newH) && hostIDs(newH) && newH.shareBase == old(newH.shareBase) && newH.maxFragmentCores == old(newH.maxFragmentCores)
+//@   # the planner is switched to the affinity-preserving whole-core planner
+//@   ensures[C33.affinity-on,C06] newH.affinity
+//@   loop 1:
+//@     modifies oldFull
+//@     invariant oldFull != nil && fresh(oldFull) && allocated(oldFull) && oldFragment != nil && fresh(oldFragment) && allocated(oldFragment) && oldFull != oldFragment
+//@     invariant (forall k string :: oldFull[k] >= 0) && (forall k string :: oldFragment[k] >= 0)
+//@   loop 2:
+//@     modifies oldFragment
+//@     invariant oldFull != nil && fresh(oldFull) && allocated(oldFull) && oldFragment != nil && fresh(oldFragment) && allocated(oldFragment) && oldFull != oldFragment
+//@     invariant (forall k string :: oldFull[k] >= 0) && (forall k string :: oldFragment[k] >= 0)
 
 //@ # ---- whole-core plans (no affinity): `full` distinct cores at a full share each ----
 
@@ -142,10 +151,68 @@ package schedule
 //@   requires memoryRequest >= 0 && memoryRequest <= 2305843009213693952 && -2305843009213693952 <= availableMemory && availableMemory <= 2305843009213693952
 //@   ensures[C04.mem-admission,C06] memoryRequest > 0 ==> len(result) * memoryRequest <= max(availableMemory, 0)
 //@   ensures[C04.mem-wf,C06] (arr(result) == 0 || allocated(result))
+//@   # a workload's old cores are handed to the planner for affinity before planning; the planner works on the available cores
+//@   ensures[C33.affinity-handover] card(originCPUMap) > 0 ==> called(schedule.reorderByAffinity) == 1 && before(schedule.reorderByAffinity, host.getCPUPlans)
+//@        && arg(schedule.reorderByAffinity, 1) == arg(host.getCPUPlans, 0)
+//@   assert[C33.origin-host] before call reorderByAffinity#1: arg0 == originH && arg1 == h && originH != h
+//@   assert[C33.plan-request] before call getCPUPlans#1: arg0 == h && arg1 == cpuRequest
 
+//@ # GetCPUPlans: what each planning round is given (partial contract: numeric range preconditions of the callees and
+//@ # run-time safety are not claimed here; the joint fit of all plans is not claimed)
 //@ func GetCPUPlans
-//@   trusted
+//@   partial loops
+//@   requires resourceInfo != nil && req != nil && wfNode(resourceInfo)
 //@   ensures[C07.plans-nonnil,C04,C05,C06,C33] (arr(result) == 0 || allocated(result)) && forall k :: 0 <= k && k < len(result) ==> result[k] != nil && allocated(result[k])
+//@   # a NUMA-local round plans on exactly the free pieces of that NUMA node's cores, within that node's free memory,
+//@   # with the workload's old cores handed over for affinity
+//@   assert[C04.numa-round,C33] before call doGetCPUPlans#1: arg0 == originCPUMap && arg1 == cpuMap && arg2 == availableResource.NUMAMemory[numaNodeID]
+//@        && arg3 == shareBase && arg4 == maxFragmentCores && arg5 == req.CPURequest && arg6 == req.MemRequest
+//@   assert[C04.numa-cores,C33] before call doGetCPUPlans#1: forall c string :: c in cpuMap ==> resourceInfo.Capacity.NUMA[c] == numaNodeID
+//@        && cpuMap[c] == resourceInfo.Capacity.CPUMap[c] - resourceInfo.Usage.CPUMap[c]
+//@   # the last round plans on what is left of the whole node
+//@   assert[C04.cross-round,C33] before call doGetCPUPlans#2: arg0 == originCPUMap && arg1 == availableResource.CPUMap && arg2 == availableResource.Memory
+//@        && arg3 == shareBase && arg4 == maxFragmentCores && arg5 == req.CPURequest && arg6 == req.MemRequest
+//@   loop 1:
+//@     modifies numaCPUMap
+//@     invariant numaCPUMap != nil && fresh(numaCPUMap) && allocated(numaCPUMap) && availableResource != nil && fresh(availableResource) && allocated(availableResource)
+//@     invariant availableResource.CPUMap != nil && fresh(availableResource.CPUMap) && allocated(availableResource.CPUMap) && numaCPUMap != availableResource.CPUMap
+//@     invariant forall n string :: n in numaCPUMap ==> numaCPUMap[n] != nil && sinceloop(numaCPUMap[n]) && allocated(numaCPUMap[n]) && numaCPUMap[n] != numaCPUMap
+//@     invariant forall n1 string, n2 string :: n1 in numaCPUMap && n2 in numaCPUMap && n1 != n2 ==> numaCPUMap[n1] != numaCPUMap[n2]
+//@     invariant availableResource.NUMAMemory != nil && allocated(availableResource.NUMAMemory) && fresh(availableResource.NUMAMemory) && availableResource.NUMAMemory != availableResource.CPUMap
+//@     invariant numaCPUMap != availableResource.NUMAMemory && forall n string :: n in numaCPUMap ==> numaCPUMap[n] != availableResource.CPUMap && numaCPUMap[n] != availableResource.NUMAMemory
+//@     invariant forall n string, c string :: n in numaCPUMap && c in numaCPUMap[n] ==> resourceInfo.Capacity.NUMA[c] == n
+//@                  && numaCPUMap[n][c] == resourceInfo.Capacity.CPUMap[c] - resourceInfo.Usage.CPUMap[c]
+//@     invariant forall c string :: availableResource.CPUMap[c] == resourceInfo.Capacity.CPUMap[c] - resourceInfo.Usage.CPUMap[c]
+//@     invariant arr(cpuPlans) == 0 || (fresh(cpuPlans) && allocated(cpuPlans))
+//@   loop 2:
+//@     modifies availableResource, availableResource.CPUMap, availableResource.NUMAMemory
+//@     invariant availableResource != nil && allocated(availableResource) && (arr(cpuPlans) == 0 || (fresh(cpuPlans) && allocated(cpuPlans)))
+//@     invariant availableResource.CPUMap == pre(availableResource.CPUMap) && availableResource.NUMAMemory == pre(availableResource.NUMAMemory)
+//@        && availableResource.CPUMap != nil && availableResource.NUMAMemory != nil && availableResource.NUMAMemory != availableResource.CPUMap
+//@     invariant numaCPUMap != availableResource.CPUMap && numaCPUMap != availableResource.NUMAMemory
+//@        && forall n string :: n in numaCPUMap ==> numaCPUMap[n] != availableResource.CPUMap && numaCPUMap[n] != availableResource.NUMAMemory
+//@     invariant forall k :: 0 <= k && k < len(cpuPlans) ==> cpuPlans[k] != nil && allocated(cpuPlans[k])
+//@     invariant forall n string, c string :: n in numaCPUMap && c in numaCPUMap[n] ==> resourceInfo.Capacity.NUMA[c] == n
+//@                  && numaCPUMap[n][c] == resourceInfo.Capacity.CPUMap[c] - resourceInfo.Usage.CPUMap[c]
+//@   loop 3:
+//@     modifies availableResource, availableResource.CPUMap, availableResource.NUMAMemory
+//@     invariant availableResource != nil && allocated(availableResource) && (arr(cpuPlans) == 0 || (fresh(cpuPlans) && allocated(cpuPlans)))
+//@     invariant availableResource.CPUMap == pre(availableResource.CPUMap) && availableResource.NUMAMemory == pre(availableResource.NUMAMemory)
+//@        && availableResource.CPUMap != nil && availableResource.NUMAMemory != nil && availableResource.NUMAMemory != availableResource.CPUMap
+//@     invariant forall k :: 0 <= k && k < len(cpuPlans) ==> cpuPlans[k] != nil && allocated(cpuPlans[k])
+//@   loop 4:
+//@     modifies nothing
+//@     invariant arr(cpuPlans) == 0 || (fresh(cpuPlans) && allocated(cpuPlans))
+//@     invariant forall k :: 0 <= k && k < len(cpuPlans) ==> cpuPlans[k] != nil && allocated(cpuPlans[k])
+
+//@ # a node record as the planner reads it
+//@ pred wfNode(n *types.NodeResourceInfo) = n != nil && n.Capacity != nil && n.Usage != nil && n.Capacity != n.Usage
+//@        && allocated(n.Capacity) && allocated(n.Usage) && n.Capacity.CPUMap != n.Usage.CPUMap && n.Capacity.NUMAMemory != n.Usage.NUMAMemory
+//@        && (forall k string :: -2305843009213693952 <= n.Capacity.CPUMap[k] && n.Capacity.CPUMap[k] <= 2305843009213693952)
+//@        && (forall k string :: -2305843009213693952 <= n.Usage.CPUMap[k] && n.Usage.CPUMap[k] <= 2305843009213693952)
+//@        && (forall k string :: -2305843009213693952 <= n.Capacity.NUMAMemory[k] && n.Capacity.NUMAMemory[k] <= 2305843009213693952)
+//@        && (forall k string :: -2305843009213693952 <= n.Usage.NUMAMemory[k] && n.Usage.NUMAMemory[k] <= 2305843009213693952)
+//@        && -2305843009213693952 <= n.Capacity.Memory && n.Capacity.Memory <= 2305843009213693952 && -2305843009213693952 <= n.Usage.Memory && n.Usage.Memory <= 2305843009213693952
 
 //@ # tie-break key of getFullCPUPlans' final sort (sum of core indices): integer overflow of this key is not examined
 //@ func getFullCPUPlans$1
